@@ -72,7 +72,7 @@ def main():
         data = pattern(side * side // 2, 3)
         jobs.append({"tool": "pixtopgm", "args": [], "data": data, "fmt": "PIX", "w": side, "h": side, "skip": 0, "what": "side %d" % side, "noskip": None, "io": side in (2, 64)})
     # fixed-size formats, one generated file per header variant
-    for v in imgfmt.variants_compressed()[:1] + imgfmt.variants_compressed()[3:] + [x for x in imgfmt.variants_uncompressed() if x[0] in ("mge-raw", "vef-raw-0", "vef-raw-1", "vef-raw-3")] \
+    for v in imgfmt.variants_compressed()[:1] + imgfmt.variants_compressed()[3:] + [x for x in imgfmt.variants_uncompressed() if x[0] in ("mge-raw", "mge-raw-flag1", "mge-raw-flag127", "mge-raw-flag128", "vef-raw-0", "vef-raw-1", "vef-raw-3")] \
             + imgfmt.variants_cm3_raw() + imgfmt.variants_line_compressed():
         for f in imgfmt.generate(rep, wd, v, 1, common.seed()):
             jobs.append({"tool": f["tool"], "args": f["args"], "data": f["data"], "fmt": f["fields"]["fmt"], "w": f["fields"]["w"], "h": f["fields"]["h"], "skip": 0,
